@@ -82,6 +82,8 @@ pub fn run_space(ctx: &mut Ctx) {
         "C17" => {
             crate::history::run(ctx);
             crate::sched::run(ctx);
+            // sampling proviso, labelled as such in the evidence (see sched::stress)
+            crate::sched::stress(ctx, if ctx.tier_thorough { 20_000 } else { 1_500 });
         }
         "C18" => crate::boundary::c18(ctx),
         "C19" => crate::boundary::python(ctx, "c19"),
